@@ -77,6 +77,18 @@ func c18Setup(state string) (*c18World, error) {
 		guard(func() error { return w.sess.ExecQuery("USE nosuchdb") })
 	case "failed-use-after-use":
 		guard(func() error { return w.sess.ExecQuery("USE nosuchdb") })
+	case "selected-after-restart":
+		// clean shutdown, start-up recovery, a new session: every page the statements see comes from the data file
+		w.close()
+		storage.VerifForgetStores()
+		if err := guard(storage.InitStorage); err != nil {
+			return w, err
+		}
+		storage.VerifForgetStores()
+		w.sess = &Session{}
+		if err := run("USE d"); err != nil {
+			return w, err
+		}
 	}
 	return w, nil
 }
@@ -231,6 +243,24 @@ func c18Scripts() [][]string {
 		out = append(out, []string{first, ins9, "INSERT INTO s8 VALUES (10, 'r10'), (11, 'r11')", "SELECT * FROM s8 WHERE a > 3 ORDER BY a DESC", "DELETE FROM s8 WHERE a = 9", "UPDATE s8 SET c = 'z'"})
 		out = append(out, []string{first, first, ins9, "SELECT count(*) FROM s8"})
 	}
+	// a table that is created and still empty when the database is opened again (restart, re-selection, with or
+	// without a timer flush before): every kind of statement on it, and on the empty table of the set-up
+	for _, again := range [][]string{{"<restart>"}, {"USE d"}, {"<tick>", "<restart>"}, {"<tick>", "USE d"}} {
+		for _, stmts := range [][]string{
+			{"SELECT * FROM e2", "SELECT count(*), avg(a) FROM e2", "SELECT * FROM e"},
+			{"SELECT * FROM t JOIN e2 ON t.a = e2.a", "SELECT * FROM e2 LEFT JOIN t ON t.a = e2.a", "SELECT * FROM t RIGHT JOIN e2 ON t.a = e2.a"},
+			{"UPDATE e2 SET a = 1", "SELECT * FROM e2"},
+			{"DELETE FROM e2", "SELECT * FROM e2"},
+			{"DELETE FROM e2 WHERE a = 1", "UPDATE e2 SET c = 'x' WHERE a > 0"},
+			{"INSERT INTO e2 VALUES (1, 'x')", "SELECT * FROM e2", "UPDATE e2 SET c = 'y'", "DELETE FROM e2"},
+			{"INSERT INTO e VALUES (1)", "SELECT * FROM e", "DELETE FROM e"},
+			{"CREATE TABLE e3 (b bigint)", "SELECT * FROM e2", "SELECT * FROM e3"},
+		} {
+			for _, first := range [][]string{{"CREATE TABLE e2 (a int, c varchar(255))"}, {"INSERT INTO s8 VALUES (9, 'r9')", "<tick>", "CREATE TABLE e2 (a int, c varchar(255))"}} {
+				out = append(out, append(append(append([]string{}, first...), again...), stmts...))
+			}
+		}
+	}
 	// one long list at real page capacities: a table grown through the first split of its root interior page
 	// (about 1165 rows), then single statements of every kind on it
 	deep := []string{"CREATE TABLE big (a int, c varchar(255))"}
@@ -253,7 +283,7 @@ func runC18(env *lib.Env, rep *lib.Report) {
 	defer lib.RestoreStderr()
 	selects := c18Selects(env.Thorough())
 	muts := c18Mutations()
-	states := []string{"selected", "no-use", "failed-use", "failed-use-after-use"}
+	states := []string{"selected", "no-use", "failed-use", "failed-use-after-use", "selected-after-restart"}
 	rep.Bounds["read-only statements"] = len(selects)
 	rep.Bounds["mutating statements (each on a fresh database)"] = len(muts)
 	rep.Bounds["after each mutating statement"] = "SELECT * FROM t; one tick of every flush timer that exists; USE d; SELECT * FROM t"
@@ -423,7 +453,7 @@ func runC18(env *lib.Env, rep *lib.Report) {
 	}
 	// statement lists (each on a fresh database, session state "selected")
 	scripts := c18Scripts()
-	rep.Bounds["statement lists"] = fmt.Sprintf("%d lists of 4-6 statements on a table one row short of its first split; one list of %d statements that grows a table to 1200 rows at real page capacities (through the first split of its root interior page) and then runs statements of every kind on it", len(scripts)-1, len(scripts[len(scripts)-1]))
+	rep.Bounds["statement lists"] = fmt.Sprintf("%d lists of 4-8 statements: on a table one row short of its first split, and on a table that is still empty when the database is opened again (restart or re-selection, with and without a timer flush before); one list of %d statements that grows a table to 1200 rows at real page capacities (through the first split of its root interior page) and then runs statements of every kind on it", len(scripts)-1, len(scripts[len(scripts)-1]))
 	for si, script := range scripts {
 		if si%env.NShards != env.Shard {
 			continue
@@ -441,7 +471,40 @@ func runC18(env *lib.Env, rep *lib.Report) {
 			scriptSoFar = script[:qi]
 			prog.Set("statement list", label)
 			storage.VerifSetFuel(worldFuel)
-			e := guard(func() error { return w.sess.ExecQuery(q) })
+			var e error
+			switch q {
+			case "<tick>":
+				// the flush timer of every open store fires once
+				e = guard(func() error {
+					for _, st := range storage.VerifStores() {
+						if st.Flusher && !st.Dead && st.Alive() {
+							if err := st.Tick(); err != nil {
+								return err
+							}
+						}
+					}
+					return nil
+				})
+			case "<restart>":
+				// clean shutdown, start-up recovery, a new session on the same database
+				e = guard(func() error {
+					rs := w.sess.RelationService
+					if err := w.sess.Close(); err != nil {
+						return err
+					}
+					storage.VerifMarkClosed(rs)
+					storage.VerifForgetStores()
+					if err := storage.InitStorage(); err != nil {
+						return err
+					}
+					storage.VerifForgetStores()
+					w.sess = &Session{}
+					return w.sess.ExecQuery("USE d")
+				})
+				recursiveReadLocks()
+			default:
+				e = guard(func() error { return w.sess.ExecQuery(q) })
+			}
 			storage.VerifSetFuel(-1)
 			judge("selected", label, e)
 			if _, isPanic := e.(*panicErr); isPanic {
